@@ -217,6 +217,7 @@ type DocOpts struct {
 	Schema              SchemaOpts
 	DistinctIncludedIDs bool // included resources have pairwise distinct IDs (C11)
 	NoIncluded          bool // leave Included empty (C03 adds through Include)
+	NoNarrow            bool // no soft resources on a trimmed type of the same name
 	NoErrors            bool
 	PlainSelection      bool // only absent / empty / subset selections (no unknown names, "id", duplicates)
 	MixedWrapCol        bool // a WrapperCollection may receive wrappers of another struct type (Add accepts any *Wrapper)
@@ -258,6 +259,35 @@ func Selection(t *rapid.T, ts *TypeSpec, label string, plain bool) ([]string, bo
 	}
 
 	return sel, true
+}
+
+// collidingIDs returns the IDs which, for a resource of type t2, make
+// "type then ID" or "ID then type" read the same as for (t1, id1).
+func collidingIDs(t1, id1, t2 string) []string {
+	out := []string{}
+	add := func(id string) {
+		if id != "" && id != id1 {
+			out = append(out, id)
+		}
+	}
+
+	if strings.HasSuffix(t1, t2) {
+		add(id1 + t1[:len(t1)-len(t2)])
+	}
+
+	if x := strings.TrimSuffix(t2, t1); x != t2 && strings.HasSuffix(id1, x) {
+		add(id1[:len(id1)-len(x)])
+	}
+
+	if strings.HasPrefix(t1, t2) {
+		add(t1[len(t2):] + id1)
+	}
+
+	if x := strings.TrimPrefix(t2, t1); x != t2 && strings.HasPrefix(id1, x) {
+		add(id1[len(x):])
+	}
+
+	return out
 }
 
 // swapPlaceholder is an attribute name no generated type uses.
@@ -328,6 +358,31 @@ func Document(t *rapid.T, o DocOpts) *DocCase {
 		return &ss.Types[rapid.IntRange(0, len(ss.Types)-1).Draw(t, label)]
 	}
 
+	// narrowed draws, once in a while, a soft resource whose own type has the
+	// schema type's name but only some of its fields (what partial
+	// unmarshaling returns, or a soft resource whose type was trimmed).
+	narrowed := func(ts *TypeSpec, label string) (ResModel, bool) {
+		if o.NoNarrow || len(ts.Attrs)+len(ts.Rels) < 2 || rapid.IntRange(0, 5).Draw(t, label+"-narrow") != 0 {
+			return newRes(ts, label, false)
+		}
+
+		nts := &TypeSpec{Name: ts.Name}
+
+		for _, a := range ts.Attrs {
+			if rapid.Bool().Draw(t, label+"-keepattr") {
+				nts.Attrs = append(nts.Attrs, a)
+			}
+		}
+
+		for _, r := range ts.Rels {
+			if rapid.Bool().Draw(t, label+"-keeprel") {
+				nts.Rels = append(nts.Rels, r)
+			}
+		}
+
+		return newRes(nts, label, true)
+	}
+
 	structTypes := []*TypeSpec{}
 
 	for i := range ss.Types {
@@ -351,7 +406,7 @@ func Document(t *rapid.T, o DocOpts) *DocCase {
 
 	switch kind {
 	case "resource":
-		m, _ := newRes(pick("ptype"), "p", false)
+		m, _ := narrowed(pick("ptype"), "p")
 		c.Primary = []ResModel{m}
 		c.Doc.Data = m.Res
 	case "resources":
@@ -365,7 +420,7 @@ func Document(t *rapid.T, o DocOpts) *DocCase {
 				ts = pick("ptype")
 			}
 
-			if m, ok := newRes(ts, fmt.Sprintf("p%d", i), false); ok {
+			if m, ok := narrowed(ts, fmt.Sprintf("p%d", i)); ok {
 				c.Primary = append(c.Primary, m)
 				col.Add(m.Res)
 			}
@@ -465,9 +520,27 @@ func Document(t *rapid.T, o DocOpts) *DocCase {
 	if !o.NoIncluded && rapid.IntRange(0, 2).Draw(t, "hasincluded") > 0 {
 		n := rapid.IntRange(1, Upto(t, "nincluded", 5)).Draw(t, "nincluded")
 		for i := 0; i < n; i++ {
-			m, ok := newRes(pick("inctype"), fmt.Sprintf("inc%d", i), false)
+			m, ok := narrowed(pick("inctype"), fmt.Sprintf("inc%d", i))
 			if !ok {
 				continue
+			}
+
+			// When the type names allow it, an ID is sometimes chosen so
+			// that type and ID, written one after the other in either order,
+			// read the same as for an earlier included resource.
+			if len(c.Included) > 0 && rapid.IntRange(0, 2).Draw(t, "inc-collide") == 0 {
+				e := c.Included[rapid.IntRange(0, len(c.Included)-1).Draw(t, "inc-collide-with")]
+
+				for _, id := range collidingIDs(e.TS.Name, e.ID(), m.TS.Name) {
+					if key := m.TS.Name + "\x00" + id; !usedIDs[key] && !usedPlainIDs[id] {
+						delete(usedIDs, m.TS.Name+"\x00"+m.ID())
+						usedIDs[key] = true
+						m.Vals["id"] = id
+						m.Res.Set("id", id)
+
+						break
+					}
+				}
 			}
 
 			if o.DistinctIncludedIDs && usedPlainIDs[m.ID()] {
@@ -559,7 +632,23 @@ func Document(t *rapid.T, o DocOpts) *DocCase {
 		u.IsCol = true
 
 		if rapid.Bool().Draw(t, "urlpage") {
-			u.Params.Page = map[string]any{"size": rapid.IntRange(0, 50).Draw(t, "psize"), "number": rapid.IntRange(0, 9).Draw(t, "pnum")}
+			// Any subset of size / number and of a handful of other page
+			// parameters (they all end up in the self link).
+			u.Params.Page = map[string]any{}
+
+			if rapid.IntRange(0, 3).Draw(t, "psize-set") > 0 {
+				u.Params.Page["size"] = rapid.IntRange(0, 50).Draw(t, "psize")
+			}
+
+			if rapid.IntRange(0, 3).Draw(t, "pnum-set") > 0 {
+				u.Params.Page["number"] = rapid.IntRange(0, 9).Draw(t, "pnum")
+			}
+
+			for _, k := range []string{"offset", "after", "limit", "cursor", "a b", "Z"} {
+				if rapid.IntRange(0, 3).Draw(t, "pother-"+k) == 0 {
+					u.Params.Page[k] = rapid.SampledFrom([]string{"abc", "20", "x y&z", ""}).Draw(t, "pother-val")
+				}
+			}
 		}
 
 		if rapid.Bool().Draw(t, "urlsort") {
